@@ -133,7 +133,7 @@ def main(prop: str, tier: str) -> int:
     if not r.ok:
         rep.machinery_error(f'Indent TLC run failed: {r.violated} {r.tail[-800:]}')
     with mp.Pool(16) as pool:
-        for out in pool.imap_unordered(_chunk, list(common.chunked(list(enumerate(behs)), 300))):
+        for out in common.gmap(pool, rep, _chunk, list(common.chunked(list(enumerate(behs)), 300))):
             for fp, msg, beh in out:
                 rep.violation(fp, {'what': msg, 'behaviour': beh})
     rep.cov.update({'states': r.distinct or 1, 'transitions': r.generated or 1, 'traces_validated_against_impl': len(behs),
